@@ -41,7 +41,7 @@ def form_obligation(ctx, col: Collector, rule: str, mod: str, fname: str, patter
         fi0 = idx.func(mod, fname)
     except Exception:
         raise AnchorMissing(f'{mod}:{fname}')
-    fi = inlined_info(idx, fi0, depth=2, keep=set(keep))
+    fi = inlined_info(idx, fi0, depth=4, keep=set(keep))
     cons = f'{fname}:form'
     sks = skeletons(fi.node, unroll=1, transparent=transparent, consts=module_str_consts(idx, fi.module))
     if not sks:
